@@ -581,6 +581,8 @@ fn late_error(msg: &str) -> bool {
 }
 
 struct Hist<'a> {
+    /// name of the source directory under `root`
+    srcname: &'static str,
     root: PathBuf,
     texts: &'a mut Interner,
     keys: &'a mut Interner,
@@ -598,7 +600,7 @@ impl Hist<'_> {
         self.nclean += 1;
         let d = self.root.join(format!("clean{}", self.nclean));
         std::fs::create_dir_all(&d).unwrap();
-        let src = self.root.join("src");
+        let src = self.root.join(self.srcname);
         let res = run_child(&src, &d, s);
         let pf = self.read_out(&d.join("g.y.rs"));
         let lf = self.read_out(&d.join("l.l.rs"));
@@ -706,13 +708,32 @@ fn hid_is_first(hid: u64, a: &Args) -> bool {
 static FIRST_BUILTIN: std::sync::atomic::AtomicU64 = std::sync::atomic::AtomicU64::new(u64::MAX);
 
 fn run_history(out: &mut Out, a: &Args, texts: &mut Interner, keys: &mut Interner, hid: u64, init: (usize, usize, Vec<usize>), ops: Vec<(Op, u64)>, origin: &str) {
+    run_history_l(out, a, texts, keys, hid, init, ops, origin, hid % 4)
+}
+
+/// `layout`: 2 = the grammar is reached through a symbolic link, 3 = the source directory's name ends in `*`
+fn run_history_l(out: &mut Out, a: &Args, texts: &mut Interner, keys: &mut Interner, hid: u64, init: (usize, usize, Vec<usize>), ops: Vec<(Op, u64)>, origin: &str, layout: u64) {
     let id = out.id();
     let root = a.out.join("c18tmp").join(format!("h{}", hid));
     let _ = std::fs::remove_dir_all(&root);
-    let src = root.join("src");
+    // every fourth history keeps its sources in a directory whose name ends in `*` (the path, which the
+    // builder records in a comment of the generated file, then contains `*/`); every fourth reaches the
+    // grammar through a symbolic link (edits change the link's target, never the link)
+    let srcname: &'static str = if layout == 3 { "src*" } else { "src" };
+    let src = root.join(srcname);
     let inc = root.join("inc");
     std::fs::create_dir_all(&src).unwrap();
     std::fs::create_dir_all(&inc).unwrap();
+    if layout == 2 {
+        let real = root.join("real");
+        std::fs::create_dir_all(&real).unwrap();
+        let _ = std::fs::write(real.join("g.y"), "");
+        let _ = std::os::unix::fs::symlink(real.join("g.y"), src.join("g.y"));
+        out.count("histories_with_symlinked_grammar");
+    }
+    if layout == 3 {
+        out.count("histories_with_comment_closer_in_path");
+    }
     let _ = std::fs::write(a.out.join("current_case.txt"), describe(&init, &ops));
     let (mut g, mut l, mut s) = init.clone();
     let mut t: u64 = 0;
@@ -722,7 +743,7 @@ fn run_history(out: &mut Out, a: &Args, texts: &mut Interner, keys: &mut Interne
     let lout = inc.join("l.l.rs");
     { let tx = gtext(g); write_src(&gp, if g == 0 { None } else { Some(&tx[..]) }, t); }
     { let tx = ltext(l); write_src(&lp, if l == 0 { None } else { Some(&tx[..]) }, t); }
-    let mut h = Hist { root: root.clone(), texts, keys, nclean: 0 };
+    let mut h = Hist { srcname, root: root.clone(), texts, keys, nclean: 0 };
     let mut memo: HashMap<(usize, usize, Vec<usize>), Clean> = HashMap::new();
     // model times of the output files as set by the harness
     let mut pmt: Option<u64> = None;
@@ -933,7 +954,7 @@ fn run_history(out: &mut Out, a: &Args, texts: &mut Interner, keys: &mut Interne
         }
     }
     out.case("C18", id, &req);
-    let desc = format!("{} history: {}", origin, describe(&init, &ops));
+    let desc = format!("{} history [layout={}]: {}", origin, ["plain", "plain", "symlinked-grammar", "source-dir-named-src*"][(layout % 4) as usize], describe(&init, &ops));
     out.imp(id, "D", &desc);
     out.imp(id, "I", &isteps.join(" "));
     if hfails.is_empty() {
@@ -1124,7 +1145,8 @@ pub fn run(a: &Args) {
                 if narrow {
                     FIRST_BUILTIN.store(1, Ordering::SeqCst);
                 }
-                run_history(&mut out, a, &mut texts, &mut keys, n, init, ops, if narrow { "corpus" } else { "replay" });
+                let layout = if txt.contains("[layout=symlinked-grammar]") { 2 } else if txt.contains("[layout=source-dir-named-src*]") { 3 } else { 0 };
+                run_history_l(&mut out, a, &mut texts, &mut keys, n, init, ops, if narrow { "corpus" } else { "replay" }, layout);
             }
         }
         let _ = std::fs::remove_dir_all(&tmp);
